@@ -344,7 +344,9 @@ def run_workload(name, seed, n, wide=False, replay=None, extra_args=(), timeout=
                 if h not in seen:
                     seen.add(h)
                     if len(st["samples"]) < 3:
-                        st["samples"].append(json.loads(cline))
+                        # keep evidence files small: a sample is an actual case, cut when it is a long history / dump
+                        st["samples"].append(json.loads(cline) if len(cline) <= 6000
+                                             else {"truncated_case": cline[:4000], "length": len(cline)})
             if not (v["agree"] and v["prop"]):
                 kind = "property" if not v["prop"] else "disagreement"
                 # separate caps, so a flood of disagreements cannot hide the failing inputs (and vice versa);
